@@ -695,6 +695,13 @@ def judge(case: dict[str, Any], exclude: frozenset[str] = frozenset(), hang_s: i
     except _Hang:
         res.status = "inconclusive"
         res.labels.append("hang_guard")
+    except ValueError as exc:
+        # SymPy's integer-root code fails on some 400-digit integers ("... is not a prime factor of ..."): a limit of the
+        # harness's own exact arithmetic at the out-of-double-range magnitudes, not an observation of the library
+        if "is not a prime factor" not in str(exc):
+            raise
+        res.status = "discard"
+        res.labels.append("discard:sympy-integer-root-failure")
     finally:
         signal.alarm(0)
     return res
